@@ -23,6 +23,8 @@ EXPIRYD = ("expiry", "disk", 10, 100, 25, 50)
 SUBDOC = ("subdoc", "mem", 40, 400, 40, 80)
 SUBDOCD = ("subdoc", "disk", 12, 120, 40, 80)
 
+REG = ("reg", "mem", 60, 600, 30, 60)
+
 ROW = ["row", "row.v", "row.cas", "row.exp", "row.json", "row.x", "row.tomb", "row.rev"]
 
 PROPS = {
@@ -49,6 +51,12 @@ PROPS = {
                 what="dump feeds (backfill snapshots) from several start CAS values, against the stored rows"),
     "C11": dict(modules=["Rosmar.Properties.C11"], slices=[MULTI, MULTID], proj=V.proj_all,
                 what="every key of every collection re-read after every operation on any collection"),
+    "C03": dict(modules=["Rosmar.Properties.C03"], slices=[KV, KVD], proj=V.proj_all,
+                what="forced interleavings of compound calls (Update, WriteUpdateWithXattrs, WriteSubDoc, Incr) with other writers through the "
+                     "instrumentation points, checked for linearizability against the sequential model; sequential traces for the atomic actions"),
+    "C13": dict(modules=["Rosmar.Properties.C13"], slices=[REG], proj=V.proj_all,
+                what="registry scripts over 2 names x (memory + 2 directories) x 4 handles: open modes, close, repeated close, CloseAndDelete, "
+                     "data probes; cluster.bucketCount / GetBucketNames / directories compared after every step; forced open/close races"),
     "C14": dict(modules=["Rosmar.Properties.C14"], slices=[EXPIRY, EXPIRYD, MULTI],
                 proj=P(rb=["row", "row.v", "row.exp", "row.tomb", "ge"], ev=["k", "op", "exp"], results=True,
                        ops={"expstate", "fire", "restart", "touch", "gat"}),
@@ -69,7 +77,26 @@ def extra_C14(tier, seed, log):
     return {"realtime_scenarios": lines}, viols
 
 
-EXTRA = {"C14": extra_C14}
+def extra_sched(pid):
+    def f(tier, seed, log):
+        import sched
+        return sched.run_property(pid, log)
+    return f
+
+
+def extra_C03(tier, seed, log):
+    import sched
+    cov, viols = sched.run_property("C03", log)
+    p = V.sh([V.HARNESS, "stress"], env=V.GOENV, timeout=300)
+    lines = [l for l in p.stdout.splitlines() if l.strip()]
+    cov["stress"] = lines
+    for l in lines:
+        if l.startswith(("violation", "error")):
+            viols.append({"kind": "stress", "signature": "C03/stress/" + l.split(" ")[1].rstrip(":"), "msg": l, "ops": []})
+    return cov, viols
+
+
+EXTRA = {"C14": extra_C14, "C03": extra_C03, "C13": extra_sched("C13")}
 
 
 def load_lines(path):
@@ -212,6 +239,7 @@ def decide(pid, tier, seed, t0):
         if not violations and broken:
             path = replay_file(pid, "proof-broken", [], {"no_longer_checks": broken, "build_errors": log.get("build_errors", [])})
             violations.append(("proof-broken", path, "proof obligations no longer check: %s" % ", ".join(broken[:5]), True))
+    extra_sigs = {v.get("signature") for v in extra_viol}
     for v in extra_viol:
         if v.get("signature") in known_sigs:
             continue
@@ -221,7 +249,9 @@ def decide(pid, tier, seed, t0):
     # (6) known findings: replay each witness; print while it still fails
     for k in open_findings:
         still = True
-        if "witness" in k and os.path.exists(os.path.join(V.VERIF, k["witness"])):
+        if k.get("kind") == "schedule":
+            still = k["signature"] in extra_sigs
+        elif "witness" in k and os.path.exists(os.path.join(V.VERIF, k["witness"])):
             still = witness_still_fails(pid, k)
         if still:
             print("KNOWN-FINDING: property=%s %s" % (pid, k["what"]))
